@@ -597,7 +597,14 @@ func execStep(tr *Trace, store *RefStore, rts map[int]*instRT, st Step, apiSeq *
 		store.mu.Unlock()
 		tr.logf("partition %d %d", st.Inst, st.N)
 	case "extput":
-		store.extPut(st.Key, []byte(st.Bytes))
+		// "$TOKn" stands for the fencing token instance n holds right now (an outside party that has learnt it)
+		b := st.Bytes
+		for id, r := range rts {
+			if r != nil && r.el != nil && strings.Contains(b, fmt.Sprintf("$TOK%d", id)) {
+				b = strings.ReplaceAll(b, fmt.Sprintf("$TOK%d", id), r.el.Token())
+			}
+		}
+		store.extPut(st.Key, []byte(b))
 	case "extdelete":
 		store.extDelete(st.Key)
 	case "watchfail":
